@@ -142,3 +142,70 @@ Theorem C02_F8_refuted :
   = [(1681, 3); (7779, 3)].
 Proof. exact F8_second_eom_from_stale_history. Qed.
 Print Assumptions C02_F8_refuted.
+
+(** * Lossy transmissions: two header bursts are enough, two trailer bursts are enough *)
+From Sameold Require Import Proofs.LossyP.
+
+(** ANY two header bursts (contents symbolic: stated on what they combine to), the hold released by
+    polling, then two ([third = false]) or three trailer bursts: exactly [SOM h; EOM] *)
+Theorem C02_two_header_bursts_then_trailer :
+  forall prev0 x y n1 n2 n3 h ta tb tf u1 u2 u3 polls1 pa pb polls4 polls5 polls6 third,
+  x <> [] -> y <> [] -> n1 <> [] -> n2 <> [] -> n3 <> [] ->
+  nd h (prune_previous prev0 ta) -> h_text h <> PREFIX_MESSAGE_END ->
+  combine [trunc x] = None -> combine [trunc x; trunc y] = Some (Ok (SOM h)) ->
+  dup_or_none h (combine [trunc x; trunc y; trunc n1]) ->
+  combine [trunc y; trunc n1; trunc n2] = Some (Ok EOM) ->
+  combine [trunc n1; trunc n2; trunc n3] = Some (Ok EOM) ->
+  ta <= tb -> tb + MAX_INTERBURST_SYMBOLS <= tf -> tf <= u1 -> u1 <= u2 -> u2 <= u3 -> u3 < ta + MAX_HISTORY_DURATION ->
+  Forall (fun n => n < ta + MAX_HISTORY_DURATION) polls1 ->
+  Forall (fun n => n < tb + MAX_INTERBURST_SYMBOLS /\ n < ta + MAX_HISTORY_DURATION) pa ->
+  Forall (fun n => n < ta + MAX_HISTORY_DURATION) pb ->
+  Forall (fun n => n < ta + MAX_HISTORY_DURATION) polls4 ->
+  Forall (fun n => n < ta + MAX_HISTORY_DURATION) polls5 ->
+  msgs (fst (asm_run (mkAsm [] None prev0)
+              (lossy_ops x y n1 n2 n3 ta tb tf u1 u2 u3 polls1 pa pb polls4 polls5 polls6 third)))
+  = [(tf, Ok (SOM h)); (u2, Ok EOM)].
+Proof. intros. apply lossy_transmission_exact; assumption. Qed.
+Print Assumptions C02_two_header_bursts_then_trailer.
+
+(** instance for every canonical header: whichever two of its three bursts were heard intact and
+    whichever two or three trailer bursts (anything beginning NN) follow *)
+Theorem C02_clean_lossy_transmission :
+  forall H h0 prev0 n1 n2 n3 ta tb tf u1 u2 u3 polls1 pa pb polls4 polls5 polls6 third,
+  header_new H = Ok h0 -> h_text h0 = H -> forallb is_allowed_byte H = true ->
+  (length H <= MAX_MESSAGE_LENGTH)%nat -> nd h0 (prune_previous prev0 ta) ->
+  starts_NN n1 -> starts_NN n2 -> starts_NN n3 -> all_bytes n1 = true ->
+  ta <= tb -> tb + MAX_INTERBURST_SYMBOLS <= tf -> tf <= u1 -> u1 <= u2 -> u2 <= u3 -> u3 < ta + MAX_HISTORY_DURATION ->
+  Forall (fun n => n < ta + MAX_HISTORY_DURATION) polls1 ->
+  Forall (fun n => n < tb + MAX_INTERBURST_SYMBOLS /\ n < ta + MAX_HISTORY_DURATION) pa ->
+  Forall (fun n => n < ta + MAX_HISTORY_DURATION) pb ->
+  Forall (fun n => n < ta + MAX_HISTORY_DURATION) polls4 ->
+  Forall (fun n => n < ta + MAX_HISTORY_DURATION) polls5 ->
+  msgs (fst (asm_run (mkAsm [] None prev0)
+              (lossy_ops H H n1 n2 n3 ta tb tf u1 u2 u3 polls1 pa pb polls4 polls5 polls6 third)))
+  = [(tf, Ok (SOM (mkHeader H (h_offset_time h0) (parity_spec H []) (voting_spec H [])))); (u2, Ok EOM)].
+Proof. exact clean_lossy_transmission. Qed.
+Print Assumptions C02_clean_lossy_transmission.
+
+(** three header bursts, only two trailer bursts *)
+Theorem C02_three_headers_two_trailers :
+  forall prev0 b1 b2 b3 n1 n2 h t1 t2 t3 tf u1 u2 polls1 polls2 pa pb polls4 polls5,
+  b1 <> [] -> b2 <> [] -> b3 <> [] -> n1 <> [] -> n2 <> [] ->
+  nd h (prune_previous prev0 t1) -> h_text h <> PREFIX_MESSAGE_END ->
+  combine [trunc b1] = None -> combine [trunc b1; trunc b2] <> Some (Ok EOM) -> votes_le [trunc b1; trunc b2] h ->
+  combine [trunc b1; trunc b2; trunc b3] = Some (Ok (SOM h)) ->
+  dup_or_none h (combine [trunc b2; trunc b3; trunc n1]) ->
+  combine [trunc b3; trunc n1; trunc n2] = Some (Ok EOM) ->
+  t1 <= t2 -> t2 <= t3 -> t3 + MAX_INTERBURST_SYMBOLS <= tf -> tf <= u1 -> u1 <= u2 ->
+  u2 < t2 + MAX_HISTORY_DURATION -> t3 < t1 + MAX_HISTORY_DURATION ->
+  Forall (fun n => n < t1 + MAX_HISTORY_DURATION) polls1 ->
+  Forall (fun n => n < t2 + MAX_INTERBURST_SYMBOLS /\ n < t1 + MAX_HISTORY_DURATION) polls2 ->
+  Forall (fun n => n < t3 + MAX_INTERBURST_SYMBOLS /\ n < t2 + MAX_HISTORY_DURATION) pa ->
+  Forall (fun n => n < t2 + MAX_HISTORY_DURATION) pb ->
+  Forall (fun n => n < t2 + MAX_HISTORY_DURATION) polls4 ->
+  Forall (fun n => n < t2 + MAX_HISTORY_DURATION) polls5 ->
+  msgs (fst (asm_run (mkAsm [] None prev0)
+              (three_two_ops b1 b2 b3 n1 n2 t1 t2 t3 tf u1 u2 polls1 polls2 pa pb polls4 polls5)))
+  = [(tf, Ok (SOM h)); (u2, Ok EOM)].
+Proof. intros. apply three_headers_two_trailers_exact; assumption. Qed.
+Print Assumptions C02_three_headers_two_trailers.
